@@ -59,8 +59,10 @@ def mk(db, ref, rng, name, ncols, nrows, api, jm=None):
     ref.cmd("T %s %d" % (name, ncols))
     if jm is not None:
         jm.ask("T %s %s %s" % (name, ",".join(types), ",".join(kinds)), 30)
+    # besides the shared values every table has a few values of its own: join keys without a partner on the other side are common
+    ipool = [0, 1, 2, 3, 4, 5, 7] + rng.sample(range(8, 20), 3)
     for _ in range(nrows):
-        vals = [Val("i", rng.choice([0, 1, 2, 3, 4, 5, 7])) if t == "i" else Val("s", rng.choice([b"a", b"b", b"ab", b""]) if nrows < 100 else rng.choice([b"a", b"ab"]) + b"x" * rng.randrange(0, 70)) for t in types]
+        vals = [Val("i", rng.choice(ipool)) if t == "i" else Val("s", rng.choice([b"a", b"b", b"ab", b""]) if nrows < 100 else rng.choice([b"a", b"ab"]) + b"x" * rng.randrange(0, 70)) for t in types]
         if rng.random() < 0.1 and len(types) > 1 and types[-1] == "s" and kinds[-1] == "n":
             vals[-1] = Val("n")         # NULLs in non-key, non-indexed columns (NULL join keys: see the probe for F-NULL-JOIN)
         if all(v.kind != "n" for v in vals) and nrows < 100:
@@ -127,6 +129,17 @@ def run(res, replay=None):
                     rc = rng.choice([c for c, t in enumerate(tabs[r][0]) if t == "i"])
                     conds.append("%s.%s = %s.%s" % (l, tabs[l][1][lc], r, tabs[r][1][rc]))
                     jr.append((l, lc, r, rc))
+                if rng.random() < 0.3:
+                    # a second (third) equality between tables that are linked already: the join keeps one as its key, the others must
+                    # still be applied
+                    for _ in range(rng.choice([1, 1, 2])):
+                        l, _, r, _ = rng.choice(jr)
+                        if l == r:
+                            continue
+                        lc = rng.choice([c for c, t in enumerate(tabs[l][0]) if t == "i"])
+                        rc = rng.choice([c for c, t in enumerate(tabs[r][0]) if t == "i"])
+                        conds.append("%s.%s = %s.%s" % (l, tabs[l][1][lc], r, tabs[r][1][rc]))
+                        jr.append((l, lc, r, rc))
                 if rng.random() < 0.25:
                     # a comparison of two columns of one table (applied as a filter of that table's scan)
                     tn = rng.choice(use)
@@ -198,6 +211,32 @@ def run(res, replay=None):
                 res.samples.append(sql + " -> " + key)
         finally:
             db.destroy(); ref.close(); jm.close()
+    # join keys that collide in the hash join's table (two different integers with the same 32-bit murmur3 hash): the theorem holds
+    # for EVERY hash function because the executor re-checks the key of every candidate in a bucket
+    db = DB()
+    try:
+        if db.open().startswith("ok"):
+            hc = db.cmd("hashcoll", timeout=120)
+            if hc.startswith("ok:"):
+                x1, x2 = (int(x) for x in hc[3:].split(","))
+                db.cmd("mktable ha a0:i:n,a1:i:n"); db.cmd("mktable hb b0:i:n,b1:i:n")
+                for (a, b) in ((x1, 1), (5, 2), (x2, 3)):
+                    db.cmd("rawinsert ha i:%d i:%d" % (a, b))
+                for (a, b) in ((x2, 10), (5, 20), (x1, 30), (x2, 40)):
+                    db.cmd("rawinsert hb i:%d i:%d" % (a, b))
+                for sql in ("SELECT ha.a1, hb.b1 FROM ha, hb WHERE ha.a0 = hb.b0;", "SELECT hb.b1, ha.a1 FROM hb JOIN ha ON hb.b0 = ha.a0;"):
+                    shape = db.cmd("plan " + sql)
+                    got = canon_rows(db.sql(sql))
+                    pairs = sorted([(1, 30), (2, 20), (3, 10), (3, 40)]) if sql.startswith("SELECT ha") else sorted([(30, 1), (20, 2), (10, 3), (40, 3)])
+                    want = "ok:" + ";".join(sorted("i:%d,i:%d" % p for p in pairs))
+                    res.note_case("hash-collision|" + sql, True)
+                    if got != want:
+                        res.oracle_failures.append(("# session:\n" + "\n".join(db.log[-14:]), "join keys %d and %d have the same 32-bit hash: the join (plan %s) answers %s, the matching combinations are %s" % (x1, x2, shape, got[:200], want)))
+                        break
+            else:
+                res.broken.append("no colliding pair of join keys found: " + hc)
+    finally:
+        db.destroy()
     import pressure
     for d, w in pressure.tiny_pool_join(res, rng, 12):
         if len(res.oracle_failures) < 5:
